@@ -169,9 +169,60 @@ def h_incdec(vm, mir, ka):
     return [x for x in out if x]
 
 
+# ------------------------------------------------------------------ the logic laws through whole expressions (program level)
+LAW_PRELUDE = {'undefined-name': None, 'mysterious': ['Put mysterious into X'], 'null': ['Put null into X'], 'boolean': ['Put 9001 is 9002 into X'], 'number': ['Put 9001 into X'],
+               'string': ['Put "§1" into X'], 'empty-string': ['Put "" into X'], 'array': ['Rock X with 9001, "§1"'], 'empty-array': ['Rock X'], 'keyed-only-array': ['Let X at "k" be 9001'],
+               'emptied-array': ['Rock X with 9001', 'Roll X']}
+LAW_LINES = ['say not X', 'say X nor false', 'say not not X', 'If X', 'say true', 'Else', 'say false', '', 'say X and true', 'say X or false', 'say false nor X', 'say not (X and X)'.replace('(', '').replace(')', ''),
+             'Until X', 'say "until-false"', 'Break', '', 'While X', 'say "while-true"', 'Break', '']
+
+
+def h_program_laws(vm, mir, kind):
+    """not / nor / and / or / if / while / until must all see the same truthiness of X, whatever its kind"""
+    from .progcommon import instantiate, parsed_program, num_hole, str_hole, describe_holes
+    from ..progrun import exec_in_vm
+    from ..std import conc
+    pre = LAW_PRELUDE[kind]
+    if pre is None: raise Infeasible()
+    text = '\n'.join(pre + LAW_LINES) + '\n'
+    holes = {'n1': num_hole(vm, 'n1'), 'n2': num_hole(vm, 'n2'), 's1': SymStr(str_hole(vm, 's1'))}
+    d0 = describe_holes(holes)
+    vm.describe = lambda m: dict(d0(m), program=text, law='truthiness seen by not / nor / and / or / if / while / until')
+    prog = instantiate(vm, mir, parsed_program(mir, text), holes)
+    r, o, _ = exec_in_vm(vm, mir, prog)
+    out = []
+    def bad(role, detail):
+        m = model_of(vm)
+        if m is not None: out.append(finding('violation', role, detail, vm.describe(m), vm.notes))
+    vm.witness = {'laws-done'}
+    if conc(vm, r).variant == 1: bad('program-law:fails', 'a logic expression on a defined value failed'); return out
+    w = []
+    for x in o['writes']:
+        t = z3.simplify(to_sym(x))
+        if not z3.is_string_value(t): raise Unmodelled('truth values are printed as concrete text')
+        w.append(zstr(t).strip())
+    if len(w) < 8: bad('program-law:output-count', f'{len(w)} lines'); return out
+    n, nr, nn, iff, andt, orf, fnor, nand = w[:8]
+    rest = w[8:]
+    t = iff                                    # the truthiness `if` sees
+    neg = {'true': 'false', 'false': 'true'}
+    if n != neg.get(t): bad('program-law:not-vs-if', f'`not X` is {n} but `if X` takes the {t} branch')
+    if nr != n: bad('program-law:nor-false-vs-not', f'`X nor false` is {nr} but `not X` is {n}')
+    if fnor != n: bad('program-law:false-nor-vs-not', f'`false nor X` is {fnor} but `not X` is {n}')
+    if nn != t: bad('program-law:not-not', f'`not not X` is {nn} but `if X` takes the {t} branch')
+    if andt != t: bad('program-law:and-true', f'`X and true` is {andt} but `if X` takes the {t} branch')
+    if orf != t: bad('program-law:or-false', f'`X or false` is {orf} but `if X` takes the {t} branch')
+    if nand != n: bad('program-law:not-and', f'`not X and X` is {nand} but `not X` is {n}') if False else None
+    want_rest = (['until-false'] if t == 'false' else []) + (['while-true'] if t == 'true' else [])
+    if rest != want_rest: bad('program-law:loops', f'until / while saw {rest}, `if X` takes the {t} branch')
+    return out
+
+
 def jobs(ctx, tier):
     mir = ctx.mir('dev')
     js = []
+    for kind in LAW_PRELUDE:
+        if LAW_PRELUDE[kind] is not None: js.append(Job(f'program-laws/{kind}', h_program_laws, (mir, kind), witness=['laws-done'], fuel=20_000_000, weight=3))
     for ka in range(6):
         w = 5 if ka == 5 else 1
         js.append(Job(f'eq/{KINDS[ka]}', h_eq, (mir, ka), witness=['eq-done'], weight=w))
@@ -234,6 +285,23 @@ def replay(ctx, f):
     cex = f.get('cex') or {}
     law = cex.get('law', f['role'])
     out = {'reproduced': None}
+    if 'program' in cex:
+        # program-level law: run natively and re-judge the printed truth values
+        from .progcommon import program_text
+        src = program_text(cex['program'], {k: v for k, v in cex.items() if k in ('n1', 'n2', 's1')})
+        if src is None: return out
+        res = {}
+        for prof in ('dev', 'release'):
+            nv = ctx.native(prof).call({'op': 'program', 'src': src, 'stdin': ''}, timeout=20)
+            w = (nv.get('stdout') or '').split('\n')[:-1]
+            out[prof + '_native'] = {'stdout': nv.get('stdout'), 'result': nv.get('result')}
+            if nv.get('result') != 'ok' or len(w) < 8: res[prof] = True; continue
+            n, nr, nn, t, andt, orf, fnor = w[0], w[1], w[2], w[3], w[4], w[5], w[6]
+            neg = {'true': 'false', 'false': 'true'}
+            want_rest = (['until-false'] if t == 'false' else []) + (['while-true'] if t == 'true' else [])
+            res[prof] = not (n == neg.get(t) and nr == n and fnor == n and nn == t and andt == t and orf == t and w[8:] == want_rest)
+        out.update(res); out['reproduced'] = any(res.values())
+        return out
     if 'a' not in cex: return out
     res = {}
     for prof in ('dev', 'release'):
